@@ -185,7 +185,31 @@ def hsJudge (f : List String) (out : String) : String :=
   | some c, some o => Casket.TLSSpec.hsVerdict c.aesni c.cfgs c.sni c.la o
   | _, _ => "bad:unparsable:" ++ out
 
+/- c06.build  aesni cfg   out = err | plain | <built fields> -/
+def buildModel : List String → String
+  | [a, c] =>
+    match parseCfg c with
+    | none => "bad-case"
+    | some c =>
+      if !c.enabled then "plain"
+      else match build (a == "1") c with
+        | none => "err"
+        | some (_, b) => showBuilt b
+  | _ => "bad-case"
+
+def buildJudge (f : List String) (out : String) : String :=
+  if out == "err" || out == "plain" then "ok"
+  else match parseObs ("cfg\t0\t" ++ out) with
+    | some (.cfg _ b) =>
+      match f with
+      | [_, c] => match parseCfg c with
+        | some c => Casket.TLSSpec.buildVerdict (some (c, b))
+        | none => "bad:unparsable:case"
+      | _ => "bad:unparsable:case"
+    | _ => "bad:unparsable:" ++ out
+
 def streams : List Driver.Stream := [
+  { name := "c06.build", model := buildModel, judge := buildJudge },
   { name := "c06.handshake", model := hsModel, judge := hsJudge },
   { name := "c06.snihost", model := sniModel, judge := sniJudge },
   { name := "c06.select", model := selectModel, judge := selectJudge },
